@@ -7,6 +7,8 @@ from checks import cryptogen as g
 def model_checks(c):
     c.add_mc("AesCtrImpl (scaled: block 2, counter byte wraps at 3; every partition of <= 16 bytes into calls, portable and accelerated path)",
              vlib.tlc(g.SD, "AesCtrImpl", "AesCtrImplMC.cfg", workers=4, timeout=600, coverage=True))
+    c.add_mc("AesRefMC (FIPS 197 in plain TLA+, S-box = its definition on all 256 bytes, = JDK AES on the appendix C vectors and 202 pattern keys/blocks)",
+             vlib.tlc(g.SD, "AesRefMC", workers=2, timeout=600))
     c.cov["exhaustive"] = True
 
 
@@ -22,4 +24,4 @@ def main(c):
                      "that carry the block counter across byte boundaries, cut as one call / tiny calls / sub-block pieces around the carry offsets / the "
                      "5, 11+256 blocks, 5 pattern; every call validated by TLC against AES_k(nonce_be64 || index_be64) (JDK AES primitive), long streams on "
                      "48-byte windows at the carry offsets and the end; an execution = 200 calls")
-    c.cov["trusted_base"] = ["TLC", "JDK AES/ECB (block cipher primitive)", "gcc ASan/UBSan"]
+    c.cov["trusted_base"] = ["TLC", "JDK AES/ECB (keystream blocks; cross-checked against AesRef.tla, which decides the single-block calls)", "gcc ASan/UBSan"]
